@@ -17,7 +17,7 @@ EXPLANATION = (
     "two-level lookup (local shadows global); (R6) and the global scope is consulted exactly when that "
     "same lookup missed locally - no other predicate decides the fallback.  (R7) extended vs compact: "
     "both VarType::is_extended implementations (DIM types, parameter types) answer the stated table on "
-    "every variant, arrays following their element type.")
+    "every variant, arrays following their element type.  (R9) where the default type of a bare name is computed and existing entries of the name are separated into suffix-style and AS-style ones, a suffix-style entry is taken for the bare name only after its type was compared with the default type.")
 NOT_DECIDED = ["the resolution outcome for arbitrary combinations of declarations (run of the converter)"]
 
 NAMES = "Names"
@@ -543,6 +543,52 @@ def r8_function_name_writable_only_inside_it(ctx, rule="C13.R8"):
     ctx.require(rule, 1)
 
 
+def r9_bare_name_selects_compact_entry_by_default_type(ctx, rule="C13.R9"):
+    """`A bare name denotes the variable of its default type ... A%, A&, A!, A# and A$ are five
+    different ones`: a function that computes the default type of a bare name (`qualify`) and then
+    goes through the existing entries of that name, separating suffix-style (Compact) from AS-style
+    (Extended) entries, may take a Compact entry for the bare name only after comparing the entry's
+    type with the default type.  (Taking whatever Compact entry exists makes `REDIM Items(1 TO 5)`
+    re-dimension `Items$`.)"""
+    prog = ctx.prog
+    n = 0
+    for f in sorted(prog.fns.values(), key=lambda f: f.id):
+        if f.crate != "rusty_linter" or f.kind == "const":
+            continue
+        body = f.body
+        sws = [sw for sw in mir.enum_switches(prog, body) if sw.adt.endswith("::BuiltInStyle")]
+        qcalls = [(b, t) for b, t in body.calls() if (t.get("cpath") or "").split("::")[-1] == "qualify"]
+        if not sws or not qcalls:
+            continue
+        pv = mir.Prov(body)
+        for sw in sws:
+            n += 1
+            name = f.path.split("::", 1)[1]
+            ct = sw.arms.get("Compact", sw.otherwise)
+            et = sw.arms.get("Extended", sw.otherwise)
+            region = mir.arm_region(body, sw.bb, ct) if ct is not None else set()
+            compares = False
+            for b in sorted(region):
+                t = body.term(b)
+                if t["k"] == "call" and (t.get("cpath") or "").split("::")[-1] in ("eq", "ne"):
+                    if any(mir.origin_mentions(pv.of_operand(a), lambda z: z[0] == "call" and z[1].split("::")[-1] == "qualify")
+                           for a in t["args"]):
+                        compares = True
+                for st in body.blocks[b]["s"]:
+                    r = st.get("r", {})
+                    if st["k"] == "assign" and r.get("k") == "bin" and r.get("op") in ("Eq", "Ne"):
+                        if any(mir.origin_mentions(pv.of_operand(r[x]), lambda z: z[0] == "call" and z[1].split("::")[-1] == "qualify")
+                               for x in ("a", "b")):
+                            compares = True
+            ctx.decide(ct != et and compares, rule, "%s:%s" % (rule, name), f.loc,
+                       "a Compact entry is taken only if its type equals the default type of the bare name",
+                       "%s takes an existing suffix-style entry for a bare name without comparing its type with the "
+                       "name's default type%s: `REDIM Items$(1 TO 3)` ... `REDIM Items(1 TO 5)` re-dimensions the string "
+                       "array instead of creating Items!" % (name, " (Compact and Extended entries share one arm)" if ct == et else ""))
+    ctx.analysed_units(rule, selectors=n)
+    ctx.require(rule, 1)
+
+
 def run(ctx):
     common.install(ctx)
     from . import c09
@@ -555,3 +601,4 @@ def run(ctx):
     r6_fallback_keyed_on_same_lookup(ctx)
     r7_extended_table(ctx)
     r8_function_name_writable_only_inside_it(ctx)
+    r9_bare_name_selects_compact_entry_by_default_type(ctx)
